@@ -21,7 +21,7 @@ func init() {
 		Level: "exploration",
 		Rule: "case = (K, OP, RAND, SQN_net, SQN_ue, AMF) with SQN pairs drawn from {equal, +-1, differing only in octet i (i by index), random}; each case compares F1, F2345, GenerateOPC, MilenageGenerate with ref/sec, " +
 			"runs Milenage_check on the valid AUTN and on single-bit corruptions of every AUTN bit (all 128 in thorough, 32 sampled in quick) plus single-octet corruptions, " +
-			"and on stale SQNs feeds the AUTS to Milenage_auts, also with every AUTS bit corrupted; case 0 is the TS 35.208 set recorded in the anchored test-data file (recorded outputs = library = reference, field by field). distinct = hash(inputs); all cases non-trivial",
+			"and on stale SQNs feeds the AUTS to Milenage_auts, also with every AUTS bit corrupted; case 0 is the TS 35.208 set recorded in the anchored test-data file (recorded outputs = library = reference, field by field). Calls with output subsets, with wider used output buffers, refused calls; consecutive cases resembling or algebraically related to their predecessor (same K, other OP, same first AES input); the first calls of every process use all-zero arguments. distinct = hash(inputs); all cases non-trivial",
 		Assumptions: []string{
 			"SQN comparison is the unsigned 48-bit integer order; a stale SQN with a bad MAC may be reported either as failure or as resynchronisation",
 			"ref/sec Milenage self-tested against TS 35.207/208 sets 1-3 at start",
